@@ -416,6 +416,8 @@ pub struct ChildStdout(Attacher<process::ChildStdout>);
 
 impl ChildStdout {
     fn new(stdout: process::ChildStdout) -> io::Result<Self> {
+        #[cfg(unix)]
+        sys::set_nonblocking(&stdout)?;
         Attacher::new(stdout).map(Self)
     }
 }
@@ -456,6 +458,8 @@ pub struct ChildStderr(Attacher<process::ChildStderr>);
 
 impl ChildStderr {
     fn new(stderr: process::ChildStderr) -> io::Result<Self> {
+        #[cfg(unix)]
+        sys::set_nonblocking(&stderr)?;
         Attacher::new(stderr).map(Self)
     }
 }
@@ -497,6 +501,8 @@ pub struct ChildStdin(Attacher<process::ChildStdin>);
 
 impl ChildStdin {
     fn new(stdin: process::ChildStdin) -> io::Result<Self> {
+        #[cfg(unix)]
+        sys::set_nonblocking(&stdin)?;
         Attacher::new(stdin).map(Self)
     }
 }
